@@ -212,7 +212,7 @@ def probe_spec(draw):
         from . import c16
 
         spec = draw(c16.run_spec(kinds=("flat", "nested")))
-        spec = {k_: v for k_, v in spec.items() if k_ not in ("kind", "carry", "two_step", "ruinous_fee", "hedge_secs")}
+        spec = {k_: v for k_, v in spec.items() if k_ not in ("kind", "carry", "two_step", "ruinous_fee", "hedge_secs", "exact_zero")}
         spec["family"] = "leveraged"
     else:
         spec = draw(gen.backtest_spec())
